@@ -500,6 +500,41 @@ def gen_cascade(rng):
     out.append("top frameend")
     return "\n".join(out) + "\n"
 
+def gen_deeprec(rng):
+    """C02/C09/C12: 3-4 systems that do little else than run / message each other and themselves over several runs:
+    nested replays, commands postponed during a replay, several pending entries per system, buffers that interleave
+    entries of different ancestors."""
+    g = G(rng); out = []
+    n = rng.randint(3, 4)
+    for d in range(n):
+        runs = []
+        for _ in range(rng.randint(2, 3)):
+            sc = []
+            for _ in range(rng.randint(0, 3)):
+                x = rng.random(); t = rng.randrange(n)
+                if x < 0.15: t = d
+                if x < 0.7: sc.append("run s%d" % t)
+                elif x < 0.9: sc.append("sysevent s%d %d %d" % (t, rng.randrange(NTY), g.newpid()))
+                else: sc.append("broadcast 0 %d" % g.newpid())
+            runs.append(sc)
+        out.append("def %d %d" % (1 if rng.random() < 0.1 else 0, len(runs)))
+        for sc in runs: out.append("run %d" % len(sc)); out += sc
+    setup = []
+    for d in range(n):
+        if rng.random() < 0.3: setup.append("on p %d bc:0" % d)
+        else: setup.append("spawnsys %d" % d)
+    out.append("top acts %d" % len(setup)); out += setup
+    for _ in range(rng.randint(1, 3)):
+        sc = []
+        for _ in range(rng.randint(1, 2)):
+            x = rng.random()
+            if x < 0.7: sc.append("run s%d" % rng.randrange(n))
+            elif x < 0.9: sc.append("sysevent s%d 0 %d" % (rng.randrange(n), g.newpid()))
+            else: sc.append("broadcast 0 %d" % g.newpid())
+        out.append("top acts %d" % len(sc)); out += sc
+    out.append("top frameend")
+    return "\n".join(out) + "\n"
+
 def gen_visibility(rng):
     """C03/C04/C05: several listeners per event; bodies run other systems (probes) and send further events, so readers
     are sampled at every position of the tree while data entities are still alive."""
@@ -705,6 +740,7 @@ PROFILES = {
     "removal2": gen_removal2,
     "dsp": gen_dsp,
     "cascade": gen_cascade,
+    "deeprec": gen_deeprec,
     "access2": gen_access2,
     "access": lambda rng: gen_mix(rng, weights=dict(access=6, trigger=5, register=1.5), body_weights=dict(access=4, trigger=4)),
     "once": lambda rng: gen_mix(rng, weights=dict(register=3, trigger=6, revoke=2, life=1), body_weights=dict(trigger=5, register=1.5, revoke=1)),
